@@ -452,3 +452,37 @@ Proof.
     + exists a, body, b. split; [assumption|]. split; [lia|]. split; [assumption|].
       subst off sz. apply (section_body st rs a id body b HI Hrs).
 Qed.
+
+(* ------------------------------------------------------------------ *)
+(* the return value of InvalidateChangedStreams                         *)
+(* ------------------------------------------------------------------ *)
+Lemma contains_free_stream : forall fx st id id',
+  contains (free_stream fx st id) id' = if id' =? id then false else contains st id'.
+Proof.
+  intros fx st id id'. unfold contains, free_stream.
+  destruct (lookup (st_infos st) id) as [[off sz]|] eqn:E; cbn [st_infos].
+  - destruct (id' =? id) eqn:Ei.
+    + apply N.eqb_eq in Ei. subst id'. rewrite lookup_remove_eq. reflexivity.
+    + apply N.eqb_neq in Ei. rewrite lookup_remove_neq by assumption. reflexivity.
+  - destruct (id' =? id) eqn:Ei; [|reflexivity]. apply N.eqb_eq in Ei. subst id'. rewrite E. reflexivity.
+Qed.
+
+Theorem invalidate_reports_cached : forall fx ids st id,
+  In id (snd (invalidate fx st ids)) <-> In id ids /\ contains st id = true.
+Proof.
+  induction ids as [|i ids IH]; intros st id; cbn [invalidate snd].
+  - cbn. tauto.
+  - specialize (IH (free_stream fx st i) id).
+    destruct (invalidate fx (free_stream fx st i) ids) as [st' inv] eqn:E. cbn [snd] in *.
+    rewrite contains_free_stream in IH.
+    destruct (N.eq_dec id i) as [->|Hne].
+    + rewrite N.eqb_refl in IH. destruct (contains st i) eqn:Ec.
+      * split; [intros _; split; [left; reflexivity|reflexivity] | intros _; left; reflexivity].
+      * split; [intros H; apply IH in H; destruct H; discriminate | intros [_ H]; discriminate].
+    + assert ((id =? i) = false) as Hf by (apply N.eqb_neq; assumption). rewrite Hf in IH.
+      destruct (contains st i); cbn [In]; rewrite ?IH; split.
+      * intros [H|[H1 H2]]; [congruence|]. split; [right; assumption|assumption].
+      * intros [[H|H] H2]; [congruence|]. right. split; assumption.
+      * intros [H1 H2]. split; [right; assumption|assumption].
+      * intros [[H|H] H2]; [congruence|]. split; assumption.
+Qed.
